@@ -139,6 +139,10 @@ main (int argc, char **argv)
     in = fopen (argv[1], "r");
     if (!in) { perror (argv[1]); return 3; }
     vt_open (argv[2]);
+    /* pixman reports the implementations disabled through PIXMAN_DISABLE on stdout when it initialises (before main):
+     * hand that to the orchestrator now, so that it is not lost should a later call crash */
+    pixman_version ();
+    fflush (stdout);
     while (fscanf (in, "%31s", cmd) == 1)
     {
 	if (!strcmp (cmd, "R"))
@@ -146,6 +150,7 @@ main (int argc, char **argv)
 	    if (fscanf (in, "%127s", name) != 1) return 3;
 	    reset_all ();
 	    vt_reset (name);
+	    fflush (stdout);
 	}
 	else if (!strcmp (cmd, "I"))
 	{
